@@ -76,6 +76,14 @@ def law_blocks(ch):
     require_valid(y, "init:invalid", "charge=None")
     same_array(y, base, "init:omitted-charge")
 
+    # __init__ without blocks and without a charge: the documented default
+    # is the identity charge
+    y0 = must(cls, indices=indices, what="__init__(no blocks)",
+              **sym_kwargs(spec, explicit))
+    require(y0.charge == e and not y0.blocks, "init:empty-default-charge",
+            lambda: f"charge {y0.charge!r}, {len(y0.blocks)} blocks")
+    require_valid(y0, "init:invalid", "no blocks, no charge")
+
     # from_blocks
     give_charge = spec["charge"] != e or ch.boolean("give-charge")
     args = {}
@@ -261,8 +269,9 @@ def law_dense(ch):
             maps_arg.append({i: m[i] for i in order})
     else:
         maps_arg = maps
-    with warnings.catch_warnings():
-        warnings.simplefilter("ignore")
+    has_weight = bool(np.any(np.where(mask, 0, B) != 0))
+    with warnings.catch_warnings(record=True) as wlist:
+        warnings.simplefilter("always")
         if mode == "ignore":
             ok, y = True, must(cls.from_dense, A, maps_arg, duals,
                                what="from_dense", invalid_sectors=mode,
@@ -271,10 +280,20 @@ def law_dense(ch):
             ok, y = attempt(cls.from_dense, A, maps_arg, duals,
                             invalid_sectors=mode, **args, **kw)
             if not ok:
-                has_weight = bool(np.any(np.where(mask, 0, B) != 0))
                 require(mode == "raise" and has_weight, "from_dense:raised",
                         f"{mode}: {type(y).__name__}: {y}")
                 ch.count("raised:invalid_sectors")
+            # the documented modes: 'raise' actively errors and 'warn' warns
+            # when entries outside the conserving sectors are discarded
+            require(not (ok and mode == "raise" and has_weight),
+                    "from_dense:raise-mode-silent",
+                    "non-zero entries outside the charge-conserving sectors "
+                    "were discarded although invalid_sectors='raise'")
+            if mode == "warn" and ok:
+                warned = any("sector" in str(w.message) for w in wlist)
+                require(warned == has_weight, "from_dense:warn-mode",
+                        lambda: f"warned={warned}, discarded weight="
+                                f"{has_weight}")
     if ok:
         require(type(y) is cls, "from_dense:class", f"{type(y)}")
         require_valid(y, "from_dense:invalid", "from_dense")
